@@ -177,14 +177,18 @@ def r10_3(run):
     tests = [n for n, s in cfg.stmt.items() if cfg.label[n] == "If" and norm(s) == "constant is None"]
     assigns = [n for n in own_nodes(fi.node) if isinstance(n, ast.Assign) and assigned_name(n) == "constant"]
     assigns = [a for a in assigns if cfg.node_for(a) is not None and cfg.reachable(cfg.node_for(a))]
-    if not tests:
+    tests_any = [n for n, s in cfg.stmt.items() if cfg.label[n] == "If" and "constant is None" in norm(s).replace("constant is not None", "constant is None")]
+    if not tests and not tests_any:
         run.ob("R10.3", loc(fi, fi.node), fi.short, "constant inference is guarded by `constant is None`", False,
                "no `constant is None` test: an explicit constant=False is treated like 'not given' and can be overridden")
+    # semantic form: with an explicit flag (`constant is None` false) no assignment to `constant` is reachable -- whatever the spelling of the
+    # guard (nested ifs, one conjunction, an early `if constant is not None:` branch)
+    cfg_explicit = build_cfg(run, fi, switch_assumptions(fi, track=True, memguard=True, extra={"constant is None": False}))
     for a in assigns:
-        na = cfg.node_for(a)
-        ok = any(cfg.edge_dominates(t, "true", na) for t in tests)
+        na = cfg_explicit.node_for(a)
+        ok = na is None or not cfg_explicit.reachable(na)
         run.ob("R10.3", loc(fi, a), fi.short, f"`{norm(a)}` only when no explicit flag was given", ok,
-               "edge-dominated by the true edge of `constant is None`" if ok else "an explicit constant=True/False can be overridden")
+               "unreachable once `constant is None` is false" if ok else "an explicit constant=True/False can be overridden")
         v = a.value
         okv = (isinstance(v, ast.Constant) and v.value in (True, None))
         run.ob("R10.3", loc(fi, a), fi.short, f"inferred value `{norm(v)}` is True (all inputs constant) or None (defer to dtype)", okv,
